@@ -42,6 +42,13 @@ def _body(engine, shape, k, letters, kw):
                 cache[key] = hc.lev_term(seqs[key[0]], seqs[key[1]])
             return cache[key]
 
+        if engine == "kdtree":
+            # rapidfuzz.process.extract keeps only `limit` matches and its DEFAULT is 5: without max_returns the limit handed
+            # over must be None, otherwise sequences with more than five neighbours silently lose some (argument record)
+            from models import rf_model
+            lims = [kw_["limit"] for name, kw_ in rf_model.CALLS if name == "extract"]
+            if any(l is not None for l in lims):
+                return False, f"process.extract called with limit={lims} although max_returns is None"
         ok = hc.exact_triplets(got, len(seqs), len(seqs), dist, k, self_mode=True)
         return ok, (lambda: f"{engine}(max_edits={k}) returned {_fmt(got)}")
     return body
@@ -54,6 +61,13 @@ def _replay(engine, shape, k, kw):
         got = getattr(pyrepseq, engine)(list(seqs), max_edits=k, **kw)
         want = hc.want_triplets(seqs, seqs, hc.lev, k, True)
         ok, detail = hc.compare_triplets(got, want)
+        if ok and engine == "kdtree":
+            # real-library probe for the argument-record part: a sequence with MORE than five neighbours keeps them all
+            hub = ["CASSLGQYF"] + ["CASSLGQY" + c for c in "ACDEGHI"]
+            pg = getattr(pyrepseq, engine)(list(hub), max_edits=k, **kw)
+            pw = hc.want_triplets(hub, hub, hc.lev, k, True)
+            ok, detail = hc.compare_triplets(pg, pw)
+            detail = f"[probe: 8 mutually neighbouring sequences {hub}] " + detail
         if ok:
             ref = pyrepseq.nearest_neighbor(list(seqs), max_edits=k)
             ok, detail = hc.compare_triplets(got, set(hc.canon(ref)))
